@@ -2,4 +2,9 @@
 
 package parser
 
+import "github.com/DDP-Projekt/Kompilierer/src/ast"
+
 func verifTrace(p *parser, kind string, a, b int) {}
+
+func verifInst(kind string, genericFunc *ast.FuncDecl, module *ast.Module, decl *ast.FuncDecl, nerr int) {
+}
